@@ -63,3 +63,19 @@ package types
 //@   requires b != nil
 //@   ensures bytesval(result) == bcat(arrbytes(b.Hash, 32), common.be64enc(b.Height))
 //@   modifies nothing
+
+// ---- text forms (bech32, external library): ASSUMED to be total functions of the value that touch nothing ------------------
+// (encoding a fixed-length payload under a constant prefix does not fail, so the panics in String() are dead)
+//@ spec addrStr(a arr) str
+//@ spec ztsStr(z arr) str
+//@ func Address.String(addr)
+//@   trusted
+//@   ensures result == addrStr(addr)
+//@   modifies nothing
+//@ func ZenonTokenStandard.String(zts)
+//@   trusted
+//@   ensures result == ztsStr(zts)
+//@   modifies nothing
+//@ func ParseZTS(ztsString)
+//@   trusted
+//@   modifies nothing
